@@ -220,7 +220,7 @@ def r3(ctx):
                 if not (needle.has_call(r"str>::to_lowercase$") and needle.has_call(r"SignedHeaderRequirements::%s$" % acc)):
                     problems.append("the name looked up is not the lower-cased declared name")
             else:
-                if not (needle.has_call(r"HashMap::<K, V, S, A>::keys$") and needle.has_field("headers")):
+                if not (needle.has_call(r"HashMap::<K, V, S, A>::keys$") and needle.reads_field("headers")):
                     problems.append("the name looked up is not a request header name (self.headers.keys())")
         if acc == "if_in_request":
             ck = info["contains_key"]
@@ -229,7 +229,7 @@ def r3(ctx):
             else:
                 t = ck[0]
                 m, k = b.slice_op(t["args"][0]), b.slice_op(t["args"][1])
-                if not m.has_field("headers") or not (k.has_call(r"str>::to_lowercase$") and k.has_call(r"SignedHeaderRequirements::if_in_request$")):
+                if not m.reads_field("headers") or not (k.has_call(r"str>::to_lowercase$") and k.has_call(r"SignedHeaderRequirements::if_in_request$")):
                     problems.append("presence is not tested on self.headers with the lower-cased declared name")
         elif info["contains_key"]:
             problems.append("unexpected presence condition")
@@ -240,7 +240,7 @@ def r3(ctx):
             else:
                 t = sw[0]
                 subj, pref = b.slice_op(t["args"][0]), b.slice_op(t["args"][1])
-                if not (subj.has_call(r"HashMap::<K, V, S, A>::keys$") and subj.has_field("headers")):
+                if not (subj.has_call(r"HashMap::<K, V, S, A>::keys$") and subj.reads_field("headers")):
                     problems.append("starts_with is not applied to a request header name")
                 if not (pref.has_call(r"str>::to_lowercase$") and pref.has_call(r"SignedHeaderRequirements::prefixes$")):
                     problems.append("the prefix compared is not the lower-cased declared prefix")
@@ -329,7 +329,22 @@ def r5(ctx):
                 continue
             grow = [t["callee"] for bi, t in f.calls(r"Vec::<T, A>::(push|insert|extend|append)$")]
             shrink = [t["callee"] for bi, t in f.calls(r"Vec::<T, A>::(retain|remove|clear|truncate|pop|drain|swap_remove|dedup\w*|retain_mut)$")]
-            if op == "add" and (shrink or not grow):
+            # an add_* may skip the push only for an entry EQUAL to the (lower-cased) new name: a weaker test
+            # (starts_with / contains / a length comparison) silently drops a distinct requirement
+            weak = []
+            if op == "add":
+                pushes_ = [bi for bi, t in f.calls(r"Vec::<T, A>::(push|insert|extend|append)$")]
+                for pb in pushes_:
+                    for a_, s_, c_, tr_ in guard_conditions(f, pb):
+                        if c_["kind"] == "call" and re.search(r"(starts_with|ends_with|str>::contains|strip_prefix|find|matches)$|PartialOrd::\w+$", c_["callee"]):
+                            weak.append(c_["callee"].split("::")[-1])
+                        elif c_["kind"] == "binop" and c_["op"] in ("Lt", "Le", "Gt", "Ge"):
+                            weak.append(c_["op"])
+                for bi, t in f.calls(r"str>::(starts_with|ends_with|contains|strip_prefix|find)$"):
+                    weak.append(t["callee"].split("::")[-1])
+            if op == "add" and weak:
+                yield VIOL("C05-R5", "mutator/%s/skip-condition" % p, "`add_%s` skips the new entry on a test weaker than equality with an existing one (%s): a distinct requirement can be dropped" % (short, sorted(set(weak))), where=loc(f.j["span"]))
+            elif op == "add" and (shrink or not grow):
                 yield VIOL("C05-R5", "mutator/%s" % p, "`add_%s` does not only grow its list (grow %s, shrink %s)" % (short, grow, shrink), where=loc(f.j["span"]))
             elif op == "remove" and grow:
                 yield VIOL("C05-R5", "mutator/%s" % p, "`remove_%s` grows a list" % short, where=loc(f.j["span"]))
